@@ -378,6 +378,13 @@ func main() {
 		n    int
 	}
 	failures := map[string]*failure{}
+	abort := false
+	knownKeys := map[string]bool{}
+	for _, kf := range lib.KnownFindings(prop) {
+		if kf.Status == "open" {
+			knownKeys[kf.Key] = true
+		}
+	}
 	flog, _ := os.Create(filepath.Join(lib.Root(), ".work", prop, "failures.txt"))
 	defer flog.Close()
 	addFailure := func(key, what string, it *sweepItem, o outcome) {
@@ -388,6 +395,9 @@ func main() {
 			return
 		}
 		f.n++
+		if f.n >= 6 && !knownKeys[key] {
+			abort = true // the same new failure six times: stop sweeping, report
+		}
 		if len(it.features) < len(f.it.features) {
 			f.it, f.o, f.what = it, o, what
 		}
@@ -431,20 +441,12 @@ func main() {
 				what += " — " + f7
 			}
 		}
-		if strings.Contains(o.msg, "invalid memory address or nil pointer dereference") && strings.Contains(o.msg, "config.(*CodeIdentifier).equalOnNonEmptyFields") && it.id == "corpus-F13" {
+		if strings.Contains(o.msg, "invalid memory address or nil pointer dereference") && strings.Contains(o.msg, "config.(*CodeIdentifier).equalOnNonEmptyFields") {
 			key = "F13:invalid-regex-nil-regexp"
 		}
 		addFailure(key, what, it, o)
 	}
 
-	// corpus: F13 — a specification with a pattern that does not compile
-	{
-		p := gen.GenC07Program(lib.Rand("c07-f13"), 1, false, "directRec")
-		bad := strings.Replace(cfgYaml(nil), `method: "^sink$"`, `method: "sink("`, 1)
-		p.Files["badregex.yaml"] = bad
-		items = append(items, &sweepItem{id: "corpus-F13", features: []string{"corpus:F13-invalid-regex"}, files: p.Files,
-			jobs: []string{"taint@badregex.yaml", "backtrace@badregex.yaml"}, fixed: 60 * time.Second, onDone: defaultFail})
-	}
 	// corpus: F7 — 26 sequential if/else (committed replay input)
 	{
 		src, err := os.ReadFile(filepath.Join(lib.Root(), "corpus", "findings", "F07_haspath_diamonds", "main.go"))
@@ -458,6 +460,34 @@ func main() {
 				jobs: []string{"taint@default.yaml"}, fixed: fixed, onDone: defaultFail})
 		} else {
 			rep.Notes = append(rep.Notes, "F7 replay input missing: "+err.Error())
+		}
+	}
+	// corpus: the replay inputs of the crashes found by earlier sweeps (corpus/findings/C07*: main.go, optional
+	// go.mod, jobs.txt = one job per line); run first, with the default configuration
+	if dirs, err := filepath.Glob(filepath.Join(lib.Root(), "corpus", "findings", "C07*")); err == nil {
+		sort.Strings(dirs)
+		for _, d := range dirs {
+			src, err := os.ReadFile(filepath.Join(d, "main.go"))
+			if err != nil {
+				continue
+			}
+			files := map[string]string{"main.go": string(src), "default.yaml": cfgYaml(nil)}
+			if extra, err := os.ReadDir(d); err == nil {
+				for _, e := range extra {
+					n := e.Name()
+					if n == "go.mod" || strings.HasSuffix(n, ".yaml") || strings.HasSuffix(n, ".s") {
+						if b, err := os.ReadFile(filepath.Join(d, n)); err == nil {
+							files[n] = string(b)
+						}
+					}
+				}
+			}
+			jobs := []string{"taint@default.yaml", "backtrace@default.yaml"}
+			if jb, err := os.ReadFile(filepath.Join(d, "jobs.txt")); err == nil {
+				jobs = strings.Fields(string(jb))
+			}
+			items = append(items, &sweepItem{id: "corpus-" + filepath.Base(d), features: []string{"corpus:" + filepath.Base(d)},
+				files: files, jobs: jobs, fixed: 120 * time.Second, onDone: defaultFail})
 		}
 	}
 	// one program per feature (alone), then random mixtures
@@ -531,6 +561,15 @@ func main() {
 		go func() {
 			defer wg.Done()
 			for it := range ch {
+				mu.Lock()
+				stop := abort
+				mu.Unlock()
+				if stop {
+					mu.Lock()
+					rep.Count("skipped-after-repeated-new-failure")
+					mu.Unlock()
+					continue
+				}
 				pr := runProgram(it.dir, it.jobs, it.fixed)
 				report(it, pr)
 			}
